@@ -334,6 +334,32 @@ fn enumerate(cfg: &Cfg, shapes: &[Shape], f: &mut dyn FnMut(u64, &str, &str, &[u
                 }
             }
         }
+        // 3a. altitude-code specials (DF 0, 4, 16, 20: 13-bit AC field at bit 19): the 25-ft branch around
+        // its lower guard (N = 0, 1, 39, 40, 41 - i.e. at and below 0 ft) and at its top, with and without
+        // the M bit, and the all-zero / one-pulse Gillham codes
+        {
+            let mut b0 = background(s.nbytes, Bg::Zeros);
+            pin(&mut b0);
+            let df = (b0[0] >> 3) as u64;
+            if [0u64, 4, 16, 20].contains(&df) && s.nbytes * 8 >= 56 {
+                let code_of = |n: u64, m: u64| ((n & 0x7E0) << 2) | ((n & 0x10) << 1) | (n & 0xF) | 0x10 | (m << 6);
+                let mut vals: Vec<u64> = Vec::new();
+                for n in [0u64, 1, 2, 39, 40, 41, 42, 2046, 2047] {
+                    vals.push(code_of(n, 0));
+                    vals.push(code_of(n, 1));
+                }
+                vals.extend([0u64, 0x0001, 0x0004, 0x1000, 0x0040]);
+                for (j, bg) in [Bg::Zeros, Bg::Ones].iter().enumerate() {
+                    for &v in &vals {
+                        let mut b = background(s.nbytes, *bg);
+                        set_bits(&mut b, 19, 13, v);
+                        pin(&mut b);
+                        finish(&mut b, sealable);
+                        out(&b, &format!("ac13={v:x}.{}", bg_tag(*bg, j)), &mut idx);
+                    }
+                }
+            }
+        }
         // 3b. character fills (shapes with character areas): the 56-bit ME / MB field filled with
         // one 6-bit code at each of the 6 bit alignments; and, per area, spaces everywhere but one
         // position, a leading space only, a trailing space only (with the fields that make a reader
@@ -976,17 +1002,7 @@ struct Call {
 /// writes to a sink, so that decoding is also exercised the way `RUST_LOG=rs1090=DEBUG` runs it: the
 /// outcome must be the same as without logging, and in particular not a panic.
 fn logged<T>(f: impl FnOnce() -> T) -> T {
-    use std::sync::OnceLock;
-    static DISPATCH: OnceLock<tracing::Dispatch> = OnceLock::new();
-    let d = DISPATCH.get_or_init(|| {
-        tracing::Dispatch::new(
-            tracing_subscriber::fmt()
-                .with_max_level(tracing::Level::TRACE)
-                .with_writer(std::io::sink)
-                .finish(),
-        )
-    });
-    tracing::dispatcher::with_default(d, f)
+    tracing::dispatcher::with_default(rsdriver::trace_dispatch(), f)
 }
 
 fn call_try_from(b: &[u8]) -> Call {
